@@ -6,6 +6,10 @@ import Csproto.Props.C10Prov
 #print axioms Csproto.C10.safe_reads_decoded
 #print axioms Csproto.C10.fast_mode_aliases
 #print axioms Csproto.C10.facts
+#print axioms Csproto.C10.mode_is_the_option
+#print axioms Csproto.C10.clobber_invariant_after_any_activity
+#print axioms Csproto.C10.recycling_decoders_would_alias
+#print axioms Csproto.C10.facts_decoder_mode
 -- C10Prov
 #print axioms Csproto.C10Prov.template_policy_safe
 #print axioms Csproto.C10Prov.policy_from_facts
